@@ -596,6 +596,12 @@ def mul_cases(cv, rng, quick, scale=1.0):
         for k in ks(nlong=1 if op in ("eb_mul_lwnaf", "eb_mul_lodah", "eb_mul_basic", "eb_mul_halve") else 0):
             # a projective operand meets a recorded finding in the ladder, halving and right-to-left tau-NAF routines
             L.append("%s %s %d %s %s" % (c, op, rng.choice([0, 0, 1]), P("a" if op in NOPROJ else None), hx(k)))
+        if op == "eb_mul":
+            D = 1 << 64 if not hasattr(ep, "dgb") else 1 << ep.dgb
+            for k in [2, -2, 3, -3, D - 1, -(D - 1), (D >> 1) + 1, -((D >> 1) + 1), D, -D, D + 1, -(D + 1)]:
+                if abs(k) < cv.n:
+                    for al in (0, 1):
+                        L.append("%s %s %d %s %s" % (c, op, al, P("a"), hx(k)))
         if op in NOPROJ:
             L.append("%s %s 0 %s %s" % (c, op, P("z"), hx(rng.choice(short))))
         L.append("%s %s 0 inf %s" % (c, op, hx(rng.choice(short))))
